@@ -494,3 +494,26 @@ def run(cmd, **kw):
     kw.setdefault("text", True)
     kw.setdefault("timeout", 600)
     return subprocess.run(cmd, **kw)
+
+
+def run_model_and_translated(chk, model_mod, gen_mod, cases, broken, shard=300, cap=24000):
+    """The cases against the hand-written model (Corr.<model_mod>.check_case) and, when the translation of the source builds, against
+    the translated source run inside Coq as well (Corr.<gen_mod>.check_case_gen).  When a proof obligation broke (e.g. the translator
+    refused the new source) the model-only correspondence still runs, so that a concrete input can be found.
+    Returns (indices where the model disagrees with the implementation, indices where only the translated source disagrees, broken)."""
+    mism, translated = [], []
+    try:
+        if broken is None and chk.corr_buildable([f"Corr/{gen_mod}.vo"]):
+            both = run_cases(gen_mod, cases[:cap], shard=shard, check="check_case_gen")
+            chk.coverage["cases_also_run_on_the_translated_source"] = min(len(cases), cap)
+            if both:
+                again = run_cases(model_mod, [cases[i] for i in both], shard=shard)
+                mism = [both[j] for j in again]
+                translated = [i for i in both if i not in set(mism)]
+            if len(cases) > cap:
+                mism += [cap + i for i in run_cases(model_mod, cases[cap:], shard=shard)]
+        elif broken is None or chk.corr_buildable([f"Corr/{model_mod}.vo"]):
+            mism = run_cases(model_mod, cases, shard=shard)
+    except CoqError as e:
+        broken = f"correspondence could not be evaluated: {e}"
+    return mism, translated, broken
